@@ -261,7 +261,8 @@ var rangeCatalog = map[string][]string{
 	"decimal64": {"0..10", "-1.5..1.5", "0.5", "min..0", "99.9..max", "1.1..2.2 | 3.3..4.4", "-0.1..0.1"},
 }
 var lengthCatalog = []string{"0..3", "1..max", "2", "min..1", "1 | 3..4", "0", "3..5", "5..max", "2..2 | 6"}
-var patternCatalog = []c05pat{{"[a-z]+", false}, {"[0-9]{2}", false}, {"a.*", false}, {".*z", false}, {"ab", false}, {"[a-z]+", true}, {"x?y*", false}, {"(ab|cd)+", false}, {"[^0-9]*", false}, {"a|b", false}, {"\\d+", false}, {"[é世]+", false}}
+var patternCatalog = []c05pat{{"[a-z]+", false}, {"[0-9]{2}", false}, {"a.*", false}, {".*z", false}, {"ab", false}, {"[a-z]+", true}, {"x?y*", false}, {"(ab|cd)+", false}, {"[^0-9]*", false}, {"a|b", false}, {"\\d+", false}, {"[é世]+", false},
+	{"on|off", false}, {"[0-9]+ms|[0-9]+s|never", false}, {"ab|cd|z", true}}
 
 func genC05Type(c *core.Ctx, idx int) *c05type {
 	r := c.Rand
@@ -280,6 +281,12 @@ func genC05Type(c *core.Ctx, idx int) *c05type {
 		return t
 	case "decimal64":
 		t.fd = 1 + r.Intn(3)
+	}
+	if t.base == "string" && idx%len(bases) == 9 {
+		// one level, one pattern, every catalog pattern in turn: the only shape whose verdict is not absorbed by the
+		// coarse "several patterns are ORed" signature
+		t.levels = []c05level{{pats: []c05pat{patternCatalog[(idx/len(bases))%len(patternCatalog)]}}}
+		return t
 	}
 	for i := 0; i < nlev; i++ {
 		var l c05level
@@ -310,7 +317,8 @@ func (t *c05type) candidates(c *core.Ctx) []string {
 	case "identityref":
 		return []string{"id-a", "id-b", "id-c", "m:id-a", "id-", "ID-A", "nope"}
 	case "string":
-		out := []string{"", "a", "ab", "abc", "abcd", "abcde", "abcdef", "z", "az", "xxabxx", "abz", "12", "123", "a1", "é", "éé", "ééé", "世世世世", "世", "y", "xyy", "cdab", "abab", "b", "A", " ", "aé世", strings.Repeat("a", 300)}
+		out := []string{"", "a", "ab", "abc", "abcd", "abcde", "abcdef", "z", "az", "xxabxx", "abz", "12", "123", "a1", "é", "éé", "ééé", "世世世世", "世", "y", "xyy", "cdab", "abab", "b", "A", " ", "aé世", strings.Repeat("a", 300),
+			"on", "off", "only", "onoff", "takeoff", "10ms", "10s", "never", "whenever", "x10s", "10ms or so", "cd", "abx", "xz", "zebra"}
 		return out
 	}
 	lo, hi := baseBounds(t.base, t.fd)
